@@ -53,7 +53,8 @@ Accepted subset (anything else raises TranslateError with file:line):
   statements  x = e;  x op= e (+ - *);  P = e / P op= e for a path P (attributes of the records, constant
               string keys, d[k], l[i]);  if / elif / else (a conditional followed by more statements
               that can leave on some path gets the following statements copied into both branches);
-              for over range(..), a str, enumerate(list), a dict / .keys() / .items(), a list value
+              for over range(..), a str, enumerate(list), a dict / .keys() / .items() (two targets, or one
+              target holding the pair when the dict is not changed in the loop), a list value
               (no else; while the loop runs the iterated container may only be changed by stores to
               EXISTING positions: `d[k] = v` for the loop's own key, `l[i] = v`; then the loop reads the
               live element by key / index, else it iterates the pairs);  continue;  return [e];
@@ -69,7 +70,8 @@ Accepted subset (anything else raises TranslateError with file:line):
               (and == / != of strings and characters); in / not in (key in dict, character in str or in
               a literal list of one-character constants); not / and / or of expressions that cannot
               raise; len; str; math.log; math.floor; s[a:b]; s[i]; t[0] / t[1] on tuples; tuple
-              literals; dict literals with exactly the constant keys of a record; all(c for x in s);
+              literals; f-strings (the concatenation of their parts, {x} being str(x));
+              dict literals with exactly the constant keys of a record; all(c for x in s);
               Counter(); c.most_common(); reversed(list value); c.items();
               sorted(d, key=d.get, reverse=True); [e for x in list value]; os.path.join.
               Sub-expressions that can raise are bound in Python's evaluation order.
